@@ -233,8 +233,9 @@ Definition item_ok (it : item) : bool :=
   | IGF k _ | IGC k _ | IGS _ k _ | IGR _ k _ => negb (reserved k)
   | _ => true
   end.
+Definition CR : byte := x0d.
 Definition wf_text (t : str) : bool :=
-  forallb (fun c => is_text c || byte_eqb c NL) t && forallb (fun l => item_ok (parse_line l)) (py_lines t).
+  forallb (fun c => is_text c || byte_eqb c NL || byte_eqb c CR) t && forallb (fun l => item_ok (parse_line l)) (py_lines t).
 
 (* ------------------------------------------------------------------ feature rows *)
 Record ft := mkft { f_start : nat; f_stop : nat; f_defect : N; f_name : str }.
@@ -474,6 +475,96 @@ Definition run_C15 (op : N) (alns : list aln) (n : nat) (t : str) (fts : list ft
          let r1 := fts2row l in
          VL [VB (wf_fts l); VL [show_res r1; match r1 with ROk s => show_fts (row2fts s) | RErr e => VE e end]]
   end.
+
+(* ------------------------------------------------------------------ handle positions (round 6) *)
+(* is_stockholm, stockholm.py:16-18: f.read(11) == '# STOCKHOLM' *)
+Definition MAGIC : str := bs "# STOCKHOLM"%bs.
+Definition is_stockholm (t : str) : bool := str_eqb (firstn 11 t) MAGIC.
+
+(* one sugar.read(handle[, 'stockholm']) on a handle over the text t that stands at offset off.
+   auto = the format is not given: detect() (main.py:61-79) remembers the position (fpos = f.tell()), lets the sniffers
+   read, and seeks back to fpos after each of them; when no sniffer accepts, read() raises IOError (main.py:311-312) and the
+   handle is where it was. Then read_stockholm consumes lines up to and including the first '//' line (stockholm.py:118-139).
+   Result: None = not detected as Stockholm, Some None = ValueError, Some (Some a); and the new offset (f.tell()).
+   (Which OTHER sniffer might accept a text that does not start with the magic is C03's subject: such positions are
+   outside the domain of the chains, see chain_ok.) *)
+Definition read_at (auto : bool) (t : str) (off : nat) : option (option aln) * nat :=
+  let cur := skipn off t in
+  if auto && negb (is_stockholm cur) then (None, off)
+  else let x := read_text cur in (Some (fst x), length t - length (snd x)).
+
+(* successive reads on one handle; flags: is the format detected (true) or given (false) at that step *)
+Fixpoint chain (flags : list bool) (t : str) (off : nat) : list (option (option aln) * nat) :=
+  match flags with
+  | [] => []
+  | au :: r => let x := read_at au t off in x :: chain r t (snd x)
+  end.
+
+(* offsets behind the successive texts of a file that starts at offset off *)
+Fixpoint offsets (off : nat) (texts : list str) : list nat :=
+  match texts with
+  | [] => []
+  | x :: r => (off + length x) :: offsets (off + length x) r
+  end.
+
+(* detection is asked for only while an alignment is left (m = alignments left) *)
+Fixpoint chain_ok (flags : list bool) (m : nat) : bool :=
+  match flags with
+  | [] => true
+  | au :: r => (negb au || Nat.ltb 0 m) && chain_ok r (m - 1)
+  end.
+
+(* sugar convert IN [-o OUT] (scripts.py:33-45): seqs = read(IN); OUT given: seqs.write(OUT, fmt=fmtout);
+   otherwise print(seqs.tofmtstr(fmtout or fmt or seqs[0].meta._fmt)) - print adds one newline.
+   Here for the option combinations that resolve to Stockholm on both sides. None = the reader raised *)
+Definition convert_text (stdout : bool) (t : str) : option str :=
+  match fst (read_text t) with
+  | Some a => Some (write_text a ++ (if stdout then [NL] else []))
+  | None => None
+  end.
+
+(* iter_(f[, 'stockholm']) (main.py:214-250): stockholm.py has no iter_stockholm, so the sequences of read_stockholm are
+   yielded one by one, each with its GS / GR; the alignment-level annotations (GF, GC) sit on the basket, which iter_ does
+   not hand out. None = the reader raised *)
+Definition iter_text (t : str) : option (list row) := option_map a_rows (fst (read_text t)).
+
+Definition show_step (x : option (option aln) * nat) : val :=
+  VL [match fst x with
+      | Some (Some a) => show_aln a
+      | Some None => VE (bs "ValueError"%bs)
+      | None => VE (bs "OSError"%bs)
+      end; VI (Z.of_nat (snd x))].
+
+(* the file is pre ++ the written alignments; the handle stands behind pre and the first k alignments *)
+Definition run_C15_chain (alns : list aln) (pre : str) (flags : list bool) (k : nat) : val :=
+  let texts := map write_text alns in
+  let t := pre ++ concat texts in
+  let off := length pre + length (concat (firstn k texts)) in
+  VL [VB (forallb wf_aln alns && Nat.leb k (length alns) && chain_ok flags (length alns - k));
+      VL [VL (map VS texts); VL (map show_step (chain flags t off))]].
+
+(* the same file with DOS line ends (specification side, like render_blocks): every "\n" becomes "\r\n" *)
+Definition crlf (t : str) : str := flat_map (fun c => if byte_eqb c NL then [CR; NL] else [c]) t.
+Definition run_C15_crlf (a : aln) : val :=
+  VL [VB (wf_aln a); VL [VS (crlf (write_text a)); show_read (read_text (crlf (write_text a)))]].
+
+(* write, then iter_: the shape of a read result with the alignment level left open *)
+Definition run_C15_iter (a : aln) : val :=
+  VL [VB (wf_aln a);
+      VL [VS (write_text a);
+          VL [match iter_text (write_text a) with
+              | Some rows => VL [VNone; VNone; VL (map show_row rows)]
+              | None => VE (bs "ValueError"%bs)
+              end; VS []]]].
+
+(* the converter on the interleaved rendering at block width bw of alignment a *)
+Definition run_C15_convert (a : aln) (bw : nat) (stdout : bool) : val :=
+  let t := render_blocks bw a in
+  VL [VB (wf_aln a && Nat.leb 1 bw);
+      VL [VS t; match convert_text stdout t with
+                | Some x => VL [VS x; show_read (read_text x)]
+                | None => VE (bs "ValueError"%bs)
+                end]].
 
 (* histories (state-independence stream): the model is pure, so a history is the list of the single results *)
 Definition hist_join (l : list val) : val :=
